@@ -637,6 +637,8 @@ var ruleFilter = &Rule{
 		n := 0
 		var probs []string
 		var condFn *ssa.Function
+		curField := p.fieldReadInConstArm("ConstCurrent")
+		boundByCaller, boundByCallee := 0, 0
 		for _, r := range rows {
 			if r.Loop != nil || len(r.Out) != 2 {
 				continue
@@ -684,6 +686,19 @@ var ruleFilter = &Rule{
 					continue
 				}
 				condFn = condCall.Call.StaticCallee()
+				if curField != nil {
+					switch p.fieldStateAt(fu, curField, valueParam, r, condCall) {
+					case "item":
+						boundByCaller++
+					case "entry":
+						boundByCallee++
+					default:
+						probs = append(probs, "the condition at "+p.pos(condCall.Pos())+" is evaluated with @ bound to something other than the tested item")
+					}
+					if contCall != nil && p.fieldStateAt(fu, curField, valueParam, r, contCall) != "entry" {
+						probs = append(probs, "the continuation at "+p.pos(contCall.Pos())+" runs while @ is still rebound")
+					}
+				}
 				if unwrapCall != nil {
 					probs = append(probs, "the condition is evaluated after an unwrapping call on the same path ("+where+")")
 				}
@@ -737,9 +752,11 @@ var ruleFilter = &Rule{
 		out.Floors["filter_cells"] = 5
 
 		// @ is bound to the tested item by the condition executor
-		cur := p.fieldReadInConstArm("ConstCurrent")
+		cur := curField
 		if condFn == nil || cur == nil {
 			out.undecided("@ is bound to the tested item", "-", "", "condition executor or the field holding @ unresolved")
+		} else if boundByCallee == 0 && boundByCaller > 0 {
+			out.ok("@ is bound to the tested item", p.pos(fu.Pos()), fnName(fu), fmt.Sprintf("the filter arm stores the item into %s before evaluating the condition on every one of %d paths", cur.Name(), boundByCaller))
 		} else {
 			good := false
 			var vp *ssa.Parameter
@@ -910,11 +927,44 @@ func init() {
 	register(ruleFilter)
 	addProp(&PropSpec{
 		ID:          "C10",
-		Rules:       []string{"R-FILTER", "R-STATE", "R-PAIR-P"},
+		Rules:       []string{"R-FILTER", "R-STATE", "R-SCOPE", "R-PAIR-P"},
 		Explanation: "The filter is a small decision procedure: its complete table over (unwrap, operand is an array, condition outcome, condition error) is extracted from the filter arm and compared with 'keep exactly the items whose condition is true, hand on the very same item, drop the others without aborting, abort only on an error'; @ is bound to the tested item and restored on every exit (typestate); the outcome→item mapping of predicate check expressions is extracted likewise.",
 		Decided: []string{"R-FILTER: table of the filter arm, identity of tested and forwarded item, unwrap-before-condition, @ binding, predicate-as-item mapping",
-			"R-STATE: @ restored on every exit of the condition executor", "R-PAIR-P: an error from the condition is (failed, err), never (not found, err)"},
+			"R-STATE: @ restored on every exit of the condition executor", "R-SCOPE: the continuation is not evaluated while @ is rebound", "R-PAIR-P: an error from the condition is (failed, err), never (not found, err)"},
 		NotDecided:  []string{"equivalence with the predicate-check rewriting of the condition", "consecutive filters equal one filter on the conjunction (value level)"},
 		Assumptions: []string{},
 	})
+}
+
+// fieldStateAt follows the row's blocks up to the instruction `at` and
+// reports what the Executor field holds there relative to function entry:
+// "entry" (untouched, or written back from a saved load), "item" (the given
+// parameter was stored last) or "other".
+func (p *Prog) fieldStateAt(fn *ssa.Function, field *types.Var, item *ssa.Parameter, r *PathRow, at ssa.Instruction) string {
+	state := "entry"
+	for _, b := range r.Blocks {
+		for _, ins := range b.Instrs {
+			if ins == at {
+				return state
+			}
+			st, ok := ins.(*ssa.Store)
+			if !ok {
+				continue
+			}
+			if f, _ := p.execFieldOf(st.Addr); f != field {
+				continue
+			}
+			switch {
+			case item != nil && stripConv(st.Val) == ssa.Value(item):
+				state = "item"
+			default:
+				if ld, _ := p.traceSaved(fn, st.Val, st, 0); ld != nil {
+					state = "entry"
+				} else {
+					state = "other"
+				}
+			}
+		}
+	}
+	return state
 }
